@@ -38,6 +38,7 @@ CFG = """CONSTANTS
   NoWrapToo = %(nw)s
   MaxTMin = %(tmin)d
   RatioNeedsExpand = %(rne)s
+  ZeroRatioToo = %(zr)s
   EmitMod = %(emitmod)d
 SPECIFICATION Spec
 %(invs)s
@@ -51,17 +52,17 @@ def _b(x):
 
 
 def cfg_text(inv, rep=True, without=(), nc=2, cm=4, mp=2, mr=2, mw=3, slack=SLACK, pe=True, w=0, maxw=0, nw=False, tmin=0,
-             rne=True, emitmod=1, wide=True, cp=True):
-    return CFG % dict(rep=_b(rep), without=", ".join('"%s"' % x for x in without), nc=nc, cm=cm, mp=mp, mr=mr, mw=mw, slack=slack,
+             rne=True, emitmod=1, wide=True, cp=True, zr=False):
+    return CFG % dict(zr=_b(zr), rep=_b(rep), without=", ".join('"%s"' % x for x in without), nc=nc, cm=cm, mp=mp, mr=mr, mw=mw, slack=slack,
                       pe=_b(pe), cp=_b(cp), wide=_b(wide), w=w, maxw=maxw, nw=_b(nw), tmin=tmin, rne=_b(rne), emitmod=emitmod,
                       invs="\n".join("INVARIANT " + i for i in ([inv] if isinstance(inv, str) else inv)))
 
 
 def domain_text(**kw):
-    d = dict(nc=2, cm=4, mp=2, mr=2, mw=3, pe=True, w=0, maxw=0, nw=False, tmin=0, rne=True, emitmod=1)
+    d = dict(nc=2, cm=4, mp=2, mr=2, mw=3, pe=True, w=0, maxw=0, nw=False, tmin=0, rne=True, emitmod=1, zr=False)
     d.update(kw)
-    s = "<=%d columns, content max<=%d, padding<=%d per side%s, ratio none/1..%d, min_width<=%d on one column" % (
-        d["nc"], d["cm"], d["mp"], " incl. pad_edge=False / collapse_padding" if d["pe"] else " incl. collapse_padding", d["mr"], d["mw"])
+    s = "<=%d columns, content max<=%d, padding<=%d per side%s, ratio none/%d..%d, min_width<=%d on one column" % (
+        d["nc"], d["cm"], d["mp"], " incl. pad_edge=False / collapse_padding" if d["pe"] else " incl. collapse_padding", 0 if d["zr"] else 1, d["mr"], d["mw"])
     ext = [x for x in ("width<=%d" % d["w"] if d["w"] else "", "max_width<=%d" % d["maxw"] if d["maxw"] else "",
                        "no_wrap" if d["nw"] else "", "Table.min_width<=%d" % d["tmin"] if d["tmin"] else "",
                        "ratios without expand" if not d["rne"] else "") if x]
@@ -220,11 +221,13 @@ def conformance(chk, result):
         doms = [(dict(nc=3, cm=6, mp=2, mw=3, emitmod=211), SLACK), (dict(nc=2, cm=6, mp=2, mw=4, emitmod=3), SLACK),
                 (dict(nc=2, cm=3, mp=1, mr=1, mw=2, w=3, maxw=3, emitmod=41), 4),
                 (dict(nc=2, cm=3, mp=1, mr=1, mw=0, nw=True, rne=False), 4),
-                (dict(nc=2, cm=3, mp=1, mr=1, mw=2, tmin=9, emitmod=3), 4)]
+                (dict(nc=2, cm=3, mp=1, mr=1, mw=2, tmin=9, emitmod=3), 4),
+                (dict(nc=3, cm=3, mp=1, mr=2, mw=2, zr=True, emitmod=37), SLACK)]       # explicit zero ratios
     else:
         doms = [(dict(nc=3, cm=3, mp=1, mw=2, emitmod=211), SLACK), (dict(nc=2, cm=4, mp=2, mw=2, emitmod=19), SLACK),
                 (dict(nc=2, cm=2, mp=1, mr=1, mw=1, w=2, maxw=2, emitmod=41), 4),
-                (dict(nc=2, cm=3, mp=1, mr=0, mw=0, nw=True, emitmod=3), 4)]
+                (dict(nc=2, cm=3, mp=1, mr=0, mw=0, nw=True, emitmod=3), 4),
+                (dict(nc=3, cm=2, mp=1, mr=1, mw=1, zr=True, emitmod=29), 4)]            # explicit zero ratios
     insts, slacks, enumerated, texts = [], [], 0, []
     # the design-level counter-examples first: do they reproduce in the tree under test?
     for a in result.get("as_is", []):
